@@ -1,0 +1,10 @@
+//go:build !verif
+
+package reassembly
+
+// Yield points of the verification harness: without the build tag `verif`
+// they are empty functions that the compiler inlines to nothing.
+
+func verifYield(site string, obj interface{}) {}
+
+func verifOrderConns(conns []*connection) {}
